@@ -5,6 +5,7 @@ pywbem: an own HTTP response parser (RFC 9110/9112 syntax), an own reference mod
 parameter rules giving the set of acceptable outcomes per request, xml.etree for the response body, an own CIM-XML
 serialiser for the indications, and the callback log compared against the instances that were sent."""
 import codecs
+import os
 import logging
 import random
 import re
@@ -27,7 +28,7 @@ R = Run('loopback HTTP listener: 9 verbs + unknown verbs; Accept/Accept-Charset/
 
 warnings.simplefilter('ignore')
 logging.getLogger('pywbem').addHandler(logging.NullHandler())
-TIMEOUT = 10.0
+TIMEOUT = 10.0 * float(os.environ.get('PYVC_BOUNDED_SLOW', '1'))     # confirmation run: x4 (runner)
 TIMEOUTS = [0]
 
 
@@ -1336,6 +1337,35 @@ def phase_connection():
     run_case('body-shorter-than-content-length-then-eof', 0, raw, NWF)
 
 
+def phase_stalled():
+    """A sender that stalls (idle connection, half a request line, half the headers, a body shorter than its
+    Content-Length - all left OPEN) must not keep a later valid indication from being accepted and delivered."""
+    body0, _ = simple_body()
+    full = post(body0)
+    head_end = full.index(b'\r\n\r\n') + 4
+    stalls = [('idle-connection', b''), ('half-request-line', full[:7]), ('half-headers', full[:head_end - 6]),
+              ('headers-only', full[:head_end]), ('short-body', full[:head_end + 40])]
+    for kind, sent in stalls:
+        for n_stalled in (1, 3):
+            socks = []
+            try:
+                for _ in range(n_stalled):
+                    s = socket.create_connection(('127.0.0.1', LSN.port), timeout=TIMEOUT)
+                    if sent:
+                        s.sendall(sent)
+                    socks.append(s)
+                time.sleep(0.05)
+                body, dl = simple_body()
+                run_case('valid-while-another-sender-stalls', (kind, n_stalled), post(body), ['ok'], half_close=False,
+                         deliver=dl)
+            finally:
+                for s in socks:
+                    try:
+                        s.close()
+                    except OSError:
+                        pass
+
+
 def phase_concurrent():
     """8 client threads, each a fixed mix of valid and hostile requests, all at once."""
     if TIMEOUTS[0] >= 3:
@@ -1476,7 +1506,7 @@ def main():
     LSN = Listener()
     try:
         for ph in (phase_valid, phase_methods, phase_headers, phase_content_length, phase_body, phase_request_line, phase_connection,
-                   phase_fuzz, phase_concurrent, phase_queue_full):
+                   phase_stalled, phase_fuzz, phase_concurrent, phase_queue_full):
             t0 = time.time()
             try:
                 ph()
